@@ -12,7 +12,7 @@ TInit == \E t \in 1..NT : tid = t /\ l = 1 /\ InitFor(Traces[t].design, Traces[t
 Ev == Traces[tid].ev[l]
 Step == /\ Ev.a.n = "Prescribed"
         /\ Prescribed(Ev.a.g \o <<[i \in 1..NC(NBk) |-> ROne]>>, Ev.a.setFuel, Ev.a.kind)     \* the top block has no factor
-TraceObs == [err |-> err, zb |-> zb, zt |-> zt, h |-> h, mesh |-> mesh, locz |-> Obs.locz,
+TraceObs == [err |-> err, zb |-> zb, zt |-> zt, h |-> h, mesh |-> mesh, locz |-> LocZ,
              tname |-> [b \in 1..NBk |-> NameOf(b, tname[b])],
              comp |-> [b \in 1..NBk |-> [i \in 1..NC(b) |->
                          [h |-> comp[b][i].h, zb |-> comp[b][i].zb, zt |-> comp[b][i].zt, lin |-> comp[b][i].lin,
